@@ -279,7 +279,7 @@ def intendedClauses (src : Bytes) (params : List (Bytes × Bytes)) (impl : Strin
       | none => []
       | some t =>
         if hasLet && hasUnnamedColumn t then [] else
-        match readSql sql, intended src parsed.1 with
+        match readSqlAny sql, intended src parsed.1 with
         | some got, some want =>
           if statementEq got want then []
           else if stmtsHaveKeywordFn parsed.1 then ["c01-keyword-function-name"]      -- known finding K4
